@@ -41,6 +41,12 @@ RULE = ("(1) Old-style CNF formulas: literal = tag x {positive, '-', '~'} x {bar
         "either of the two accepted when the only new-style feature is a wildcard. "
         "(4) Configuration(['--tags=G1','--tags=G2']) with tag_expression_protocol v1/auto_detect for all ordered "
         "formulas <= 2x2 over signed {a,b,c}. "
+        "(6) Container kind: every sequence of 0-2 (thorough: 0-3; quick: 3 parts over 11 words) parts over 20 words "
+        "(tags, prefixed tags, limits incl. inconsistent ones, wildcard, bare operators and parentheses, malformed "
+        "fragments, the empty part) under V1, V2 and AUTO_DETECT given as list and as tuple (old-style: also as one "
+        "string): same truth table or same exception class whatever the container; mixed parts are rejected with "
+        "TagExpressionError from every container. In (1)-(3) every list-form argument is also given as a tuple of the "
+        "same parts (1, 2, 3 parts), on the accepted and on the rejection paths. "
         "(5) Read-operation sequences on ONE parsed object: every sequence of <= 2 (quick) / <= 3 (thorough) operations "
         "over {check (all 16 rows), str(), to_string(), format/%s, repr(), len(), read of .ands/.limits} for v1 objects "
         "(all ordered formulas <= 2x2 over signed {a,b,c,candor} under V1; under AUTO_DETECT those with <= 2 literals in "
@@ -269,8 +275,8 @@ def check_cnf(formula):
     groups = render_groups(formula)
     nlits = sum(len(g) for g in formula)
     pres = [("list", list(groups)), ("string", " ".join(groups)), ("string-wide", "  " + "  ".join(groups) + " ")]
-    if nlits <= 2:
-        pres.append(("tuple", tuple(groups)))
+    if nlits <= 3 or len(formula) >= 3:
+        pres.append(("tuple", tuple(groups)))       # tuples of 1, 2 and 3 parts
     routes = [("V1", P.V1, False), ("AUTO_DETECT", P.AUTO_DETECT, False)]
     if nlits <= 2:
         routes += [("V1", P.V1, True), ("AUTO_DETECT", P.AUTO_DETECT, True)]
@@ -382,9 +388,26 @@ def renderings_cb(ast, cb):
 _IDENT = lambda o, i: o     # noqa: E731
 
 
+def with_containers(renderings, only=None):
+    """the container kind of the argument is a dimension of its own: every list rendering also as a tuple of the
+    same parts (the list renderings have 1, 2 or 3 parts); only = restrict the tuple variants to these renderings"""
+    for rname, text in renderings:
+        yield rname, text
+        if isinstance(text, list) and (only is None or rname in only):
+            yield rname + "/tuple", tuple(text)
+
+
+def form_of(text):
+    return "list" if isinstance(text, list) else ("tuple" if isinstance(text, tuple) else "text")
+
+
+def given_of(text):
+    return list(text) if isinstance(text, list) else text
+
+
 def v2_markers(text_or_list):
     """which new-style features a text shows, by plain lexing (independent of behave)"""
-    text = " ".join(text_or_list) if isinstance(text_or_list, list) else text_or_list
+    text = " ".join(text_or_list) if isinstance(text_or_list, (list, tuple)) else text_or_list
     words = text.replace("(", " ( ").replace(")", " ) ").split()
     if any(w in ("and", "or", "not") for w in words):
         return "keyword"
@@ -397,7 +420,7 @@ def v2_markers(text_or_list):
 
 def ref_oldstyle_mask(text_or_list):
     """old-style meaning of a text without new-style operators over V2_SUB: each word one group"""
-    words = text_or_list if isinstance(text_or_list, list) else text_or_list.split()
+    words = text_or_list if isinstance(text_or_list, (list, tuple)) else text_or_list.split()
     res = FULL16
     for w in words:
         g = 0
@@ -419,11 +442,11 @@ def check_v2_auto(ast):
     want = ref_v2_mask(ast)
     nops = len(c07.operands(ast))
     v, obs, n = [], [], 0
-    for rname, text in c07.renderings(ast):
+    for rname, text in with_containers(c07.renderings(ast)):
         n += 1
-        form = "list" if isinstance(text, list) else "text"
+        form = form_of(text)
         try:
-            e = make_tag_expression(list(text) if form == "list" else text, P.AUTO_DETECT)
+            e = make_tag_expression(given_of(text), P.AUTO_DETECT)
             got = real_mask(e, V2_SUB_LISTS)
         except Exception as ex:
             v.append(({"subcheck": "auto.v2", "clause": "raises", "form": form, "markers": v2_markers(text),
@@ -448,28 +471,45 @@ def check_v2_auto(ast):
     for pos in range(1, nops + 1):
         for prefix in ("-", "~"):
             cb = lambda o, i, pos=pos, prefix=prefix: (prefix + o) if i == pos else o     # noqa: E731
-            for rname, text in renderings_cb(ast, cb):
+            # (three-operand ASTs: tuple variant of the conjunct list only; one-part tuples come from smaller ASTs)
+            for rname, text in with_containers(renderings_cb(ast, cb), ("list",) if nops >= 3 else None):
                 n2 += 1
                 markers = v2_markers(text)
-                form = "list" if isinstance(text, list) else "text"
+                form = form_of(text)
                 try:
-                    e = make_tag_expression(list(text) if form == "list" else text, P.AUTO_DETECT)
+                    e = make_tag_expression(given_of(text), P.AUTO_DETECT)
                     got = real_mask(e, V2_SUB_LISTS)
                     exc = None
                 except Exception as ex:
                     exc, got, e = ex, None, None
                 obs2.append((pos, prefix, rname, type(exc).__name__ if exc is not None else got))
                 rejected = isinstance(exc, TagExpressionError)
+                cont = {}
+                if form == "tuple" and not (rejected and markers in ("keyword", "parens")):
+                    # minimal trigger class (asked only when something may be reported): is the LIST of the same
+                    # parts treated correctly?
+                    try:
+                        make_tag_expression(list(text), P.AUTO_DETECT)
+                        list_exc = None
+                    except Exception as ex2:
+                        list_exc = ex2
+                    if type(list_exc) is not type(exc):
+                        cont = {"container": "tuple", "parts": "1" if len(text) == 1 else "2+"}
                 if markers in ("keyword", "parens"):
                     outs.add("mixed-rejected" if rejected else "mixed-not-rejected")
                     if rejected:
                         continue
                     if exc is not None:
-                        v2.append(({"subcheck": "auto.mixed", "clause": "wrong-exception", "markers": markers,
-                                    "exc": type(exc).__name__},
-                                   "mixed text %r under AUTO_DETECT raised %r, not a TagExpressionError" % (text, exc)))
+                        d = {"subcheck": "auto.mixed", "clause": "wrong-exception", "markers": markers,
+                             "exc": type(exc).__name__}
+                        if cont:
+                            d.pop("markers")
+                            d.update(cont)
+                        v2.append((d, "mixed text %r under AUTO_DETECT raised %r, not a TagExpressionError" % (text, exc)))
                     else:
-                        v2.append(({"subcheck": "auto.mixed", "clause": "accepted", "markers": markers},
+                        d = {"subcheck": "auto.mixed", "clause": "accepted", "markers": markers}
+                        d.update(cont)
+                        v2.append((d,
                                    "text %r mixes the old negation prefix %r with new-style operators but is accepted "
                                    "under AUTO_DETECT (behave built %s %r)" % (text, prefix, type(e).__module__, str(e))))
                     continue
@@ -479,9 +519,11 @@ def check_v2_auto(ast):
                     continue
                 want_old = ref_oldstyle_mask(text)
                 if exc is not None:
-                    v2.append(({"subcheck": "auto.prefixed", "clause": "raises", "markers": markers,
-                                "exc": type(exc).__name__},
-                               "pure old-style text %r under AUTO_DETECT raised %r" % (text, exc)))
+                    d = {"subcheck": "auto.prefixed", "clause": "raises", "markers": markers, "exc": type(exc).__name__}
+                    if cont:
+                        d.pop("markers")
+                        d.update(cont)
+                    v2.append((d, "pure old-style text %r under AUTO_DETECT raised %r" % (text, exc)))
                 elif got != want_old:
                     tags, g, w = first_diff(got, want_old, V2_SUB)
                     v2.append(({"subcheck": "auto.prefixed", "clause": "truth-table", "markers": markers, "form": form},
@@ -660,6 +702,68 @@ def check_object_history(case):
     return {"v": v, "nt": nt, "out": ("hist", "v1" if is_v1 else "v2", want), "dg": obs, "n": n}
 
 
+# ---- container kind of the argument ------------------------------------------------------------------
+# make_tag_expression / the auto-detection accept a string, a list or a tuple of parts.  The SAME parts must give
+# the same result (truth table, or rejection with the same exception class) whatever the container, on the accepted
+# paths and on every rejection path (mixed dialects, malformed new-style, malformed old-style); mixed text is
+# rejected with TagExpressionError from every container.
+CONT_WORDS = ("a", "-a", "~b", "@a", "candor", "a,b", "a:1", "a:2", "a*", "not", "and", "or", "(", ")", "a and",
+              "not b", "-a or b", "(a", "b)", "")
+CONT_PROTOCOLS = ("V1", "V2", "AUTO_DETECT")
+
+
+def cont_outcome(arg, proto):
+    try:
+        e = make_tag_expression(arg, proto)
+        return real_mask(e, SUB4_LISTS)
+    except Exception as ex:
+        return type(ex).__name__
+
+
+def cont_is_mixed(parts):
+    words = " ".join(parts).replace("(", " ( ").replace(")", " ) ").split()
+    prefixed = any(w[:1] in ("-", "~") for w in words)
+    return prefixed and any(w in ("and", "or", "not", "(", ")") for w in words)
+
+
+def check_containers(case):
+    """one (parts, protocol): list / tuple (/ string where the dialect gives it the same parts)"""
+    idxs, proto_name = case
+    reset_protocol()
+    parts = tuple(CONT_WORDS[i] for i in idxs)
+    proto = getattr(P, proto_name)
+    outcomes = [("list", cont_outcome(list(parts), proto)), ("tuple", cont_outcome(tuple(parts), proto))]
+    if proto_name == "V1" and all(p and " " not in p for p in parts) and parts:
+        outcomes.append(("string", cont_outcome(" ".join(parts), proto)))     # old-style: blanks separate the arguments
+    v = []
+    ref_name, ref = outcomes[0]
+    nparts = "0" if not parts else ("1" if len(parts) == 1 else "2+")
+    path = "rejected" if isinstance(ref, str) else "accepted"
+    for cname, out in outcomes[1:]:
+        if out != ref:
+            d = {"subcheck": "container", "clause": "outcome-depends-on-container", "protocol": proto_name,
+                 "container": cname, "parts": nparts, "path": path}
+            if isinstance(out, str):
+                d["exc"] = out
+            v.append((d, "parts %r under %s: as list -> %s, as %s -> %s"
+                      % (list(parts), proto_name, ref if isinstance(ref, str) else "truth table %04x" % ref, cname,
+                         out if isinstance(out, str) else "truth table %04x" % out)))
+    mixed = proto_name == "AUTO_DETECT" and cont_is_mixed(parts)
+    if mixed:
+        for cname, out in outcomes:
+            if out != "TagExpressionError" and (cname == "list" or out == ref):
+                # (a tuple that merely differs from the list is reported above, once)
+                d = {"subcheck": "container", "clause": "mixed-not-rejected-with-TagExpressionError",
+                     "container": cname, "parts": nparts}
+                if isinstance(out, str):
+                    d["exc"] = out
+                v.append((d, "parts %r (mixing the old negation prefix with new-style operators) as %s under AUTO_DETECT "
+                             "-> %s" % (list(parts), cname, out if isinstance(out, str) else "accepted, table %04x" % out)))
+    nt = ("cont", case) if len(parts) >= 2 else None
+    return {"v": v, "nt": nt, "out": ("cont", proto_name, path, mixed, ref if isinstance(ref, str) else "table"),
+            "dg": outcomes, "n": len(outcomes)}
+
+
 # ---------------------------------------------------------------- driver
 def run(ctx):
     init_worker()
@@ -698,6 +802,15 @@ def run(ctx):
     for n, leaves in plan:
         ctx.sweep(check_v2_auto, c07.asts(n, leaves), chunk=128, name="v2 + mixed under auto-detect, %d operands" % n)
 
+    # (6) container kind of the argument, accepted and rejected paths
+    cl = 2 if quick else 3
+    ctx.sweep(check_containers, ((ix, p) for k in range(0, cl + 1)
+                                 for ix in itertools.product(range(len(CONT_WORDS)), repeat=k) for p in CONT_PROTOCOLS),
+              chunk=128, name="container kind of the argument")
+    if quick:       # three parts: a smaller word list
+        w3 = [CONT_WORDS.index(w) for w in ("a", "-a", "~b", "not", "or", "(", ")", "not b", "a:1", "a:2", "")]
+        ctx.sweep(check_containers, ((ix, p) for ix in itertools.product(w3, repeat=3) for p in CONT_PROTOCOLS),
+                  chunk=128, name="container kind of the argument, 3 parts")
     # (5) sequences of read operations on one object
     hlen = 2 if quick else 3
     hist = [("v1", decorate(s, STYLES27[(i * 7 + 5) % 27]), p, hlen)
@@ -721,5 +834,12 @@ def run(ctx):
     ctx.guard(sum(1 for k in ctx.nt if k[0] == "cnf") > 2000, "at least 2000 distinct non-trivial CNF (structure, decoration)")
     ctx.guard(sum(1 for k in ctx.nt if k[0] == "v2") > 1000, "at least 1000 distinct non-trivial v2 ASTs")
     ctx.guard(sum(1 for k in outs if k[0] == "cnf") > 50, "at least 50 distinct CNF truth tables")
+    co = [k for k in outs if k[0] == "cont"]
+    ctx.guard(any(k[1] == "AUTO_DETECT" and k[3] and k[4] == "TagExpressionError" for k in co),
+              "container sweep: mixed parts rejected with TagExpressionError were seen")
+    ctx.guard(any(k[1] == "V2" and k[2] == "rejected" for k in co) and any(k[1] == "V1" and k[2] == "rejected" for k in co)
+              and all(any(k[1] == p and k[2] == "accepted" for k in co) for p in CONT_PROTOCOLS),
+              "container sweep: accepted paths under every protocol, rejected paths under V1 (inconsistent limits) and V2")
+    ctx.guard(sum(1 for k in ctx.nt if k[0] == "cont") > 1000, "at least 1000 multi-part arguments in the container sweep")
     ctx.guard(sum(1 for k in ctx.nt if k[0] == "cnf-empty") > 300, "at least 300 distinct non-trivial CNF with an empty alternative")
     ctx.guard(sum(1 for k in outs if k[0] == "cnf-empty") > 10, "at least 10 distinct truth tables among CNF with empty alternatives")
